@@ -540,7 +540,6 @@ def run(ctx):
     ctx.assumptions += [
         "texts contain no Paroxython hint comment (property quantifier); nesting below the interpreter's limits",
         "ast.parse raises only SyntaxError/ValueError instances whose class name has no colon (ParseCaught)",
-        "the feature search produces no label of the form import_internally:… (FeaturesPlain; only a hint could)",
     ]
     if (not ctx.proofs_ok or ctx.broken) and not any(v.get("signature") is None for v in ctx.violations):
         ctx.violations.append({
